@@ -371,6 +371,13 @@ func genC04(cs *CaseSet, rng *Rng, tier string, dir string) {
 				// ---- what the peer appends ----
 				var suffix []byte
 				nSuf := rng.Intn(4)
+				if shape == "truncated" {
+					// appended bytes would complete the cut login transaction with borrowed bytes and leave the rest
+					// of the stream misaligned: if that login succeeds the peer is dropped at once for the garbage
+					// that follows - what happens to a logged-in peer's requests is not this property's subject and
+					// cannot be told apart here from a refusal (segmentation and cut streams are C02's and C03's)
+					nSuf = 0
+				}
 				for i := 0; i < nSuf; i++ {
 					if want != "bad" && want != "case-variant" {
 						suffix = append(suffix, keepalive()...)
